@@ -91,31 +91,15 @@ theorem mask_tags_consistent :
 
 example : lh_cdna3_runVADDCU32.msrc = .acc ∧ lh_cdna3_runVADDCU32.accInit = .vcc := ⟨rfl, rfl⟩
 
-/-- the abstract state a translated handler runs on: the VGPR file, bit `l` of the mask source value,
-    bit `l` of the register the accumulator starts from -/
-def absState (vgpr : Nat → Nat → Nat) (m vcc0 : BitVec 64) : VState :=
-  { vgpr := vgpr, cin := fun l => m.getLsbD l, mout := fun l => vcc0.getLsbD l, mem := fun _ => 0, log := [] }
-
-/-- `m` is the 64-bit value the handler uses as lane-mask source -/
-def IsMaskSource (h : LaneHandler) (ops : Ops) (vcc0 m : BitVec 64) : Prop :=
-  (h.msrc = .vcc → m = vcc0) ∧ (h.msrc = .src2 → ops.src2 = .uni m)
-
 theorem maskTie_abs (h : LaneHandler) (hm : h ∈ Gen.Lane.laneHandlers) (ops : Ops) (vgpr : Nat → Nat → Nat)
     (vcc0 m : BitVec 64) (hs : IsMaskSource h ops vcc0 m) : MaskTie h ops vcc0 (absState vgpr m vcc0) := by
   have ht := List.all_eq_true.mp mask_tags_consistent h hm
   simp only [Bool.and_eq_true, Bool.or_eq_true, bne_iff_ne, beq_iff_eq, ne_eq] at ht
-  refine ⟨?_, ?_, ?_, ?_⟩
-  · intro hv l _; simp [absState, hs.1 hv]
-  · intro h2
-    refine ⟨?_, m, hs.2 h2, fun l _ => rfl⟩
-    rcases ht.1 with h3 | h3
-    · exact absurd h2 h3
-    · exact h3
-  · intro h2
-    rcases ht.2 with h3 | h3
-    · exact absurd h2 h3
-    · exact h3
-  · intro _ l; rfl
+  exact maskTie_of_tags h ops vgpr vcc0 m hs.1 hs.2
+    (fun h2 => by rcases ht.1 with h3 | h3; exact absurd h2 h3; exact h3)
+    (fun h2 => by rcases ht.2 with h3 | h3; exact absurd h2 h3; exact h3)
+
+example : lh_gcn3_runVADDCU32VOP3b.msrc = .src2 ∧ lh_gcn3_runVADDCU32VOP3b.accInit = .zero := ⟨rfl, rfl⟩
 
 /-- **A translated handler IS an instance of the skeleton.** For every translated handler, every operand
     placement, every EXEC, VCC and register file: the Go loop — lanes in order on one mutable register
@@ -158,18 +142,6 @@ theorem go_inactive_lanes_unchanged (h : LaneHandler) (hm : h ∈ Gen.Lane.laneH
     simp [LaneHandler.toHandler, LaneHandler.maskMode, hk, absState]
 
 example : (0x5#64).getLsbD 1 = false ∧ lh_gcn3_runVADDCU32.accInit = .zero := ⟨by decide, rfl⟩
-
-/-- the lane-local body does not look at the src2 operand when src2 is the mask source -/
-theorem seqLoop_src2_irrel (h : LaneHandler) (ops : Ops) (m' : BitVec 64) (e : Nat → Bool) (n : Nat) (s0 : VState) :
-    seqLoop h.toHandler { ops with src2 := (match h.msrc with | .src2 => .uni m' | _ => ops.src2) } e n s0
-      = seqLoop h.toHandler ops e n s0 := by
-  have : h.toHandler.f { ops with src2 := (match h.msrc with | .src2 => .uni m' | _ => ops.src2) } = h.toHandler.f ops := by
-    funext a
-    simp only [LaneHandler.toHandler, LaneHandler.bodyIn]
-    cases hk : h.msrc <;> simp
-  induction n with
-  | zero => rfl
-  | succ n ih => simp only [seqLoop, ih, stepLane, laneOut, this]
 
 /-- **Lane independence, at the level of the Go loop**: lane `l` of the result (its row, its bit of the
     written-back mask) is determined by lane `l`'s row, its EXEC bit, its bit of the mask source and of VCC. -/
